@@ -148,6 +148,36 @@ Theorem small_order_key_never_authenticated :
 Proof. exact (@Proofs.small_order_key_never_authenticated). Qed.
 Print Assumptions small_order_key_never_authenticated.
 
+(* over ANY history the nonce of an account is its initial nonce plus the number
+   of its authenticated transactions (mod 2^64): nothing else moves it, nothing
+   resets it; this is the invariant no_replay rests on *)
+Theorem nonce_counts_authenticated_transactions :
+  forall (L Raw : Type) (C : cfg L Raw) (s : state L) (ops : list op) (a : N),
+    (forall a, nonce_of s a < U64) ->
+    nonce_of (run C s ops) a
+      = (nonce_of s a + N.of_nat (length (of_addr a (trace C s ops)))) mod U64.
+Proof. exact (@run_nonce_count). Qed.
+Print Assumptions nonce_counts_authenticated_transactions.
+
+Theorem nonce_never_decreases :
+  forall (L Raw : Type) (C : cfg L Raw) (s : state L) (ops : list op) (a : N),
+    (forall a, nonce_of s a < U64) ->
+    nonce_of s a + N.of_nat (length (of_addr a (trace C s ops))) < U64 ->
+    nonce_of s a <= nonce_of (run C s ops) a.
+Proof. exact (@Proofs.nonce_never_decreases). Qed.
+Print Assumptions nonce_never_decreases.
+
+(* an operation that removed an account record (missing record = nonce 0) would
+   re-admit already executed bytes: why account_record_writers is pinned below *)
+Theorem account_removal_enables_replay :
+  exists (L Raw : Type) (C : cfg L Raw) (s : state L) (raw : Raw) (a : N),
+    (forall a', nonce_of s a' < U64) /\
+    authenticated (snd (deliver C s raw)) = true /\
+    authenticated (snd (deliver C (fst (deliver C s raw)) raw)) = false /\
+    authenticated (snd (deliver C (remove_account (fst (deliver C s raw)) a) raw)) = true.
+Proof. exact GenFacts.account_removal_enables_replay. Qed.
+Print Assumptions account_removal_enables_replay.
+
 Theorem restart_is_identity :
   forall (L Raw : Type) (C : cfg L Raw) (s : state L), step C s ORestart = s.
 Proof. exact (@Proofs.restart_is_identity). Qed.
@@ -224,3 +254,12 @@ Theorem nonce_writers_are_the_modelled_ones :
 Proof. exact nonce_writers_expected. Qed.
 Print Assumptions nonce_writers_are_the_modelled_ones.
 
+(* nothing deletes an account record and only SetAccount stores one (regenerated):
+   a deletion would be a nonce write to 0 (account_removal_enables_replay) *)
+Theorem account_records_are_never_deleted :
+  account_record_writers = [
+    "go/consensus/cometbft/apps/staking/state/state.go:SetAccount:Insert";
+    "go/upgrade/migrations/dummy.go:ConsensusUpgrade:SetAccount(literal)"
+  ].
+Proof. exact account_record_writers_expected. Qed.
+Print Assumptions account_records_are_never_deleted.
